@@ -37,7 +37,7 @@ pub fn run(run: &Run) {
     );
     run.assume("inputs whose re-serialisation has a different length than declared (strings cut at a NUL, invalid UTF-8, left-over payload bytes, dropped network-trace arguments) are outside the statement's precondition and only counted");
     run.regressions(&replay);
-    run.random("fixpoint", run.cases(150_000, 3_000_000), 0.08, strategy, check);
+    run.random("fixpoint", run.cases(400_000, 8_000_000), 0.08, strategy, check);
 }
 
 pub fn replay(section: &str, case: &Json) -> Option<CheckResult> {
